@@ -116,8 +116,15 @@ type relSlot struct {
 }
 
 // genModel generates a model plan.
+// a few model ids shared by many generated models of a batch: stored models
+// carry an id, and nothing may be keyed by it alone
+var modelIDs = []string{"01HVMMBCMGZNT3SED4Z17ECXCA", "01HVMMBCMGZNT3SED4Z17ECXCB", "01J0000000000000000000000X"}
+
 func genModel(r *rng, k genKnobs) *Model {
 	m := &Model{Schema: "1.1"}
+	if r.chance(30) {
+		m.ID = r.pick(modelIDs)
+	}
 	tn := r.perm(len(termNames))[:k.NTerm]
 	var terms []string
 	for _, i := range tn {
